@@ -147,7 +147,7 @@ def structural(tier, res):
 ORACLES = [
     {'name': 'generated budgets: `tally up --format json -v` versus `tally discover --format json` (same Unknown transactions, counts, totals) and '
              '`tally explain <merchant> --format json` / explain_description (same merchant, category, subcategory, rule)', 'script': 'C16.py',
-     'bound': '2 budgets (supplemental source, tag-only rules, transforms, let / merchant: / variable rules, both rule modes) x every merchant, 16 raw descriptions through explain_description and 5 through the explain command'},
+     'bound': '2 budgets (supplemental source, tag-only rules, transforms, let / merchant: / variable rules, both rule modes) x every merchant, 16 raw descriptions through explain_description and 5 through the explain command; discover totals against up totals'},
 ]
 TRUSTED_BASE = ['pyvc symbolic executor', 'z3 5.1.0 / cvc5 1.0.3', 'callees uninterpreted (as in C11)', 'argparse / process start-up outside the verified text (A10)']
 ASSUMPTIONS = ['load_config sets _merchants_file only to an existing file (proved in C11)', 'non-interactive run without --migrate',
